@@ -174,11 +174,80 @@ def drive_handshake(R, case):
         close_world(w)
 
 
-def exchange_pair(R, case, w, link, ext, wire, S, C, rng, scale):
+def refusal_plans(rng, limit):
+    """Per direction: ordinary messages, an incompressible message about twice the sender's limit (must be refused),
+    then messages that SHARE CONTENT with the refused one (a compressor that kept the refused octets in its context
+    refers to data the peer never got), a second refusal, ordinary ones.  Every accepted message stays well below the
+    limit, compressed or not."""
+    plans = {}
+    text = (CC.SENT * 3).encode("utf-8")
+    for d in ("c2s", "s2c"):
+        n = [0]
+
+        def t(body):
+            n[0] += 1
+            return ("<%s#%d>" % (d, n[0])).encode() + body
+
+        big = rng.randbytes(2 * limit + rng.randrange(200))
+        big2 = rng.randbytes(limit + limit // 2)
+        q = limit // 2
+        plan = [("text-first", t(text), False, False),
+                ("random-small", t(rng.randbytes(300)), True, False)]
+        if rng.random() < 0.5:
+            plan.append(("text-repeat", t(text), False, False))
+        plan += [("oversize-random", big, True, True),
+                 ("prefix-of-refused", big[:q], True, False),
+                 ("middle-of-refused", t(big[q:2 * q - 100]), True, False),
+                 ("text-after-refusal", t(text), False, False),
+                 ("empty", b"", False, False),
+                 ("oversize-text+random", t(text) + big2, True, True),
+                 ("part-of-second-refused", t(big2[100:100 + q]), True, False),
+                 ("tail-of-first-refused", big[-q:], True, False),
+                 ("text-last", t(text[:200]), False, False)]
+        plans[d] = plan
+    return plans
+
+
+def drive_refusal(R, case):
+    """case = {fam: refusal, ext, cfg, limit, seed}: library client <-> library server, both with maxMessagePayloadSize."""
+    ext, cfg, limit, seed = case["ext"], CC.cfg_tuple(case["cfg"]), case["limit"], case["seed"]
+    o_args, a_args, r_args = cfg
+    K = CC.classes(ext)
+    R.count("evaluations")
+    rng = CC.shard_rng(seed, "refusal", ext, cfg, limit)
+    so = {"perMessageCompressionAccept": lambda offers: K["OfferAccept"](offers[0], *a_args), "maxMessagePayloadSize": limit}
+    co = {"perMessageCompressionOffers": [K["Offer"](*o_args)], "maxMessagePayloadSize": limit,
+          "perMessageCompressionAccept": lambda resp: K["ResponseAccept"](resp, *r_args)}
+    w = WS()
+    try:
+        link = w.open_pair(w.server_factory(options=so), w.client_factory(options=co))
+        cl, sv = link.a, link.b
+        S, C = sv.proto._perMessageCompress, cl.proto._perMessageCompress
+        if not (is_open(cl) and is_open(sv)) or S is None or C is None:
+            R.count("refusal_cases_not_negotiated")
+            return
+        ostr = ext_header(ref.parse_http_head(bytes(cl.all_out)))
+        rstr = ext_header(ref.parse_http_head(bytes(sv.all_out)))
+        wire = report_negotiation(R, "refusal", ext, ostr, rstr, S, C, case, "refusal")
+        if wire is None:
+            return
+        R.count("refusal_ctx[%s s2c:%s c2s:%s]" % (SHORT[ext], CC.ctxmode(ext, S, C, "s2c"), CC.ctxmode(ext, S, C, "c2s")))
+        exchange_pair(R, case, w, link, ext, wire, S, C, rng, "light", plans=refusal_plans(rng, limit), fam="refusal")
+    finally:
+        close_world(w)
+
+
+def exchange_pair(R, case, w, link, ext, wire, S, C, rng, scale, plans=None, fam="handshake"):
+    """``plans`` (refusal family): {direction: [(class, payload, binary, must_be_refused)]} sent with sendMessage only."""
+    from autobahn.exception import PayloadExceededError
+
     sh = SHORT[ext]
     cl, sv = link.a, link.b
     ends = {"c2s": (cl, sv, "client"), "s2c": (sv, cl, "server")}
-    plans = {d: CC.message_plan(rng, d, scale) for d in ends}
+    refusal_mode = plans is not None
+    if plans is None:
+        plans = {d: [m + (False,) for m in CC.message_plan(rng, d, scale)] for d in ends}
+    refused_before = {d: 0 for d in ends}
     sent = {d: [] for d in ends}
     dead = {d: False for d in ends}
     order = [d for d in ends for _ in plans[d]]
@@ -191,8 +260,11 @@ def exchange_pair(R, case, w, link, ext, wire, S, C, rng, scale):
     def ctx(d):
         return CC.ctxmode(ext, S, C, d) if pmce_on else "no-extension"
 
+    def lab(rec, i):
+        return "after-refusal" if rec.get("after_refusal") else pos_of(i)
+
     for d in order:
-        cls, msg, binary = plans[d][idx[d]]
+        cls, msg, binary, must_refuse = plans[d][idx[d]]
         idx[d] += 1
         if dead[d]:
             continue
@@ -200,16 +272,52 @@ def exchange_pair(R, case, w, link, ext, wire, S, C, rng, scale):
         if not is_open(tx):
             dead[d] = True
             continue
-        dnc = rng.random() < 0.25
-        recipe = pick_recipe(rng, len(msg), scale)
+        dnc = (not must_refuse) and rng.random() < (0.15 if refusal_mode else 0.25)
+        if refusal_mode:
+            recipe = rng.choice(["whole", "whole", ("frag", 125), ("frag", rng.randint(1, 900))])
+        else:
+            recipe = pick_recipe(rng, len(msg), scale)
         i = len(sent[d])
-        rec = {"payload": msg, "binary": binary, "dnc": dnc, "recipe": recipe, "cls": cls, "ok": True}
+        rec = {"payload": msg, "binary": binary, "dnc": dnc, "recipe": recipe, "cls": cls, "ok": True,
+               "after_refusal": refused_before[d] > 0}
+        if must_refuse:
+            # a message whose compressed size exceeds the sender's maxMessagePayloadSize: sendMessage() refuses it
+            # (PayloadExceededError), nothing may reach the wire, and the connection stays usable
+            w.world.settle()
+            mark = len(tx.all_out)
+            try:
+                send_one(tx.proto, msg, binary, recipe, dnc)
+            except PayloadExceededError:
+                w.world.settle()
+                rec["ok"] = False
+                refused_before[d] += 1
+                R.count("refusals_in_sequences")
+                if pmce_on:
+                    R.count("refusals_in_compressed_sequences")
+                if len(tx.all_out) != mark:
+                    dead[d] = True
+                    R.violation("C12/%s/%s/%s/%s/refused-message-left-octets-on-the-wire" % (fam, sh, d, ctx(d)),
+                                "sendMessage() raised PayloadExceededError but wrote %d octets" % (len(tx.all_out) - mark),
+                                {"server": repr(S), "client": repr(C), "message_index": i}, case)
+            except Exception as e:      # noqa: BLE001
+                rec["ok"] = False
+                dead[d] = True
+                R.violation("C12/%s/%s/%s/%s/send-raises-%s/%s" % (fam, sh, d, ctx(d), CC.excname(e), pos_of(i)),
+                            "sending the oversize message #%d raised %r instead of PayloadExceededError" % (i, e),
+                            {"server": repr(S), "client": repr(C), "message_index": i}, case)
+            else:
+                # not refused (the limit is property C16's subject): the peer, running the same limit, will fail the
+                # connection - nothing more can be concluded from this direction
+                R.count("refusal_expected_but_message_sent")
+                return
+            sent[d].append(rec)
+            continue
         try:
             send_one(tx.proto, msg, binary, recipe, dnc)
         except Exception as e:      # noqa: BLE001
             rec["ok"] = False
             dead[d] = True
-            R.violation("C12/handshake/%s/%s/%s/send-raises-%s/%s" % (sh, d, ctx(d), CC.excname(e), pos_of(i)),
+            R.violation("C12/%s/%s/%s/%s/send-raises-%s/%s" % (fam, sh, d, ctx(d), CC.excname(e), lab(rec, i)),
                         "sending message #%d of the direction (%s, %d octets, %r) raised %r" % (i, cls, len(msg), recipe, e),
                         {"server": repr(S), "client": repr(C), "message_index": i}, case)
         sent[d].append(rec)
@@ -228,7 +336,7 @@ def exchange_pair(R, case, w, link, ext, wire, S, C, rng, scale):
     for d, (tx, rx, role) in ends.items():
         expected = [s for s in sent[d] if s["ok"]]
         got = messages_of(rx)
-        base = "C12/handshake/%s/%s/%s" % (sh, d, ctx(d))
+        base = "C12/%s/%s/%s/%s" % (fam, sh, d, ctx(d))
         det = {"server": repr(S), "client": repr(C), "escaped": [repr(e) for _, e in w.world.escaped],
                "rx_close": app_events(rx, ("onClose",)), "tx_close": app_events(tx, ("onClose",)),
                "wasNotCleanReason": getattr(rx.proto, "wasNotCleanReason", None)}
@@ -236,7 +344,7 @@ def exchange_pair(R, case, w, link, ext, wire, S, C, rng, scale):
             if i >= len(got):
                 clause = ("receiver-raises-" + esc[0]) if esc else "message-lost"
                 esc_reported = esc_reported or bool(esc)
-                R.violation("%s/%s/%s" % (base, clause, pos_of(i)),
+                R.violation("%s/%s/%s" % (base, clause, lab(s, i)),
                             "message #%d of the direction (%s, %d octets, sent by %r%s) never reached onMessage" % (
                                 i, s["cls"], len(s["payload"]), s["recipe"], ", doNotCompress" if s["dnc"] else ""),
                             dict(det, message_index=i), case)
@@ -245,8 +353,12 @@ def exchange_pair(R, case, w, link, ext, wire, S, C, rng, scale):
             compared += 1
             if i > 0:
                 R.count("handshake_later_messages_compared")
+            if s["after_refusal"]:
+                R.count("messages_compared_after_refusal")
+                if pmce_on and not s["dnc"]:
+                    R.count("compressed_messages_compared_after_refusal")
             if got[i] != (s["payload"], s["binary"]):
-                R.violation("%s/received-differs/%s" % (base, pos_of(i)),
+                R.violation("%s/received-differs/%s" % (base, lab(s, i)),
                             "message #%d (%s, %d octets, %r) arrived as %d octets / binary=%r" % (
                                 i, s["cls"], len(s["payload"]), s["recipe"], len(got[i][0]), got[i][1]),
                             dict(det, message_index=i, sent=s["payload"][:48].hex(), got=got[i][0][:48].hex()), case)
@@ -291,27 +403,27 @@ def exchange_pair(R, case, w, link, ext, wire, S, C, rng, scale):
                     out = refI.inflate(pl)
                 except R7.RefInflateError as e:
                     ref_dead = True
-                    R.violation("C12/handshake/%s/%s/lib-to-ref/%s/%s" % (sh, d, e.clause, pos_of(i)),
+                    R.violation("C12/%s/%s/%s/lib-to-ref/%s/%s" % (fam, sh, d, e.clause, lab(s, i)),
                                 "an RFC 7692 peer knowing only the headers cannot inflate message #%d: %s" % (i, e),
                                 dict(det, wire=wire), case)
                     continue
                 R.count("wire_messages_inflated_by_reference")
                 if out != s["payload"]:
                     ref_dead = True
-                    R.violation("C12/handshake/%s/%s/lib-to-ref/inflates-to-other-data/%s" % (sh, d, pos_of(i)),
+                    R.violation("C12/%s/%s/%s/lib-to-ref/inflates-to-other-data/%s" % (fam, sh, d, lab(s, i)),
                                 "an RFC 7692 peer inflates message #%d to other data" % i, dict(det, wire=wire), case)
         else:
             R.count("wire_unaligned_after_failed_send")
     if esc and not esc_reported:
         # an exception reached the framework although every message arrived
-        R.violation("C12/handshake/%s/exception-reaches-framework/%s" % (sh, esc[0]),
+        R.violation("C12/%s/%s/exception-reaches-framework/%s" % (fam, sh, esc[0]),
                     "exception escaped to the framework during the exchange", {"escaped": [repr(e) for _, e in w.world.escaped]}, case)
     if compared >= 2:
-        R.seen("nontrivial", "handshake/" + h([w.world.fw, ext, case["cfg"], scale]))
+        R.seen("nontrivial", fam + "/" + h([w.world.fw, ext, case["cfg"], scale]))
         R.count("handshake_ctx[%s s2c:%s c2s:%s]" % (sh, ctx("s2c"), ctx("c2s")))
     R.sample({"ext": ext, "cfg": case["cfg"], "scale": scale, "server": repr(S), "client": repr(C), "wire": wire,
               "sent": {d: [[s["cls"], len(s["payload"]), repr(s["recipe"]), s["dnc"]] for s in sent[d]][:6] for d in sent}},
-             kind="handshake-" + sh, every=97)
+             kind=fam + "-" + sh, every=97)
 
 
 # -------------------------------------------------------------------------------------------------
